@@ -55,14 +55,21 @@ def givens_orthogonal(n, tag="S", signs=True, block=None, planes=None):
     return S
 
 
+def _same_array(X, Y):
+    if X.shape != Y.shape:
+        return False
+    for a, b in zip(X.flat, Y.flat):
+        if not npatch._same(lift(a), lift(b)):
+            return False
+    return True
+
+
 def make_eigh_handler(eigen_equation=True, ascending=True, block=None, tag="S", unitary=False,
                       signs=True):
     count = [0]
+    registry = []      # (A, w, S, S1, B) with B = S1 A S computed the way the code does it
 
-    def handler(A):
-        n = A.shape[0]
-        t = "%s%d" % (tag, count[0])
-        count[0] += 1
+    def fresh_S(n, t):
         S = givens_orthogonal(n, t, signs=signs, block=block)
         if unitary:
             for i in range(n):
@@ -73,12 +80,68 @@ def make_eigh_handler(eigen_equation=True, ascending=True, block=None, tag="S", 
             S1 = numpy.conj(S.T)
         else:
             S1 = S.T.copy()
+        npatch.tag_inverse(S, S1)
+        return S, S1
+
+    def register(A, w, S, S1):
+        npatch.tag_inverse(S, S1)
+        registry.append((A.copy(), w, S, S1, numpy.dot(S1, numpy.dot(A, S))))
+
+    def handler(A):
+        n = A.shape[0]
+        # determinism: the same input gives the same decomposition
+        for (A0, w0, S0, S10, B0) in registry:
+            if _same_array(A, A0):
+                S = S0.copy()
+                npatch.tag_inverse(S, S10)
+                return w0.copy(), S
+        t = "%s%d" % (tag, count[0])
+        count[0] += 1
+        # input recognised as S1 A0 S of an earlier decomposition: same spectrum (similar
+        # matrices), and the new eigenvectors commute with diag(w): (w_i - w_j) S'[i,j] = 0
+        for k0, (A0, w0, S0, S10, B0) in enumerate(registry):
+            if B0 is not None and (_same_array(A, B0) or
+                                   (k0 in handler.diag_of and _same_array(A, handler.diag_of[k0]))):
+                S, S1 = fresh_S(n, t)
+                for i in range(n):
+                    for j in range(n):
+                        if i != j:
+                            sij = lift(S[i, j])
+                            d = w0[i] - w0[j]
+                            for comp in (sij.re, sij.im):
+                                if not (core.isconc(comp) and comp == 0):
+                                    ENGINE.assume(core.z(d.re) * core.z(comp) == 0,
+                                                  "eigh stub on an already diagonalised input S^-1 A S: same "
+                                                  "eigenvalues, eigenvectors commute with diag(w)")
+                if eigen_equation and k0 not in handler.diag_of:
+                    # entailed lemma: the input is diag(w)
+                    for idx in numpy.ndindex(n, n):
+                        b = lift(B0[idx])
+                        tgt = w0[idx[0]] if idx[0] == idx[1] else core.lift(0)
+                        ENGINE.assume(core.z(b.re) == core.z(tgt.re))
+                        if not (core.isconc(b.im) and b.im == 0):
+                            ENGINE.assume(core.z(b.im) == 0)
+                B = numpy.dot(S1, numpy.dot(A, S))
+                registry.append((A, w0, S, S1, B))
+                return w0.copy(), S
+        S, S1 = fresh_S(n, t)
         w = numpy.empty(n, dtype=object)
         for i in range(n):
             w[i] = core.real("%s.w%d" % (t, i))
         if ascending:
-            for i in range(n - 1):
-                ENGINE.assume(w[i].re <= w[i + 1].re, "eigh stub: eigenvalues ascending")
+            if block is None:
+                for i in range(n - 1):
+                    ENGINE.assume(w[i].re <= w[i + 1].re, "eigh stub: eigenvalues ascending")
+            else:
+                ENGINE.assumption_notes.append(
+                    "eigh stub with block structure: ascending order only inside each block "
+                    "(the blocks are assumed spectrally ordered as given)") \
+                    if "eigh stub with block structure" not in " ".join(ENGINE.assumption_notes) else None
+                for blk in block:
+                    for a, b in zip(blk[:-1], blk[1:]):
+                        ENGINE.assume(w[a].re <= w[b].re)
+                for b1, b2 in zip(block[:-1], block[1:]):
+                    ENGINE.assume(w[b1[-1]].re <= w[b2[0]].re)
         if eigen_equation:
             AS = numpy.dot(A, S)
             SW = S * w[None, :]
@@ -87,10 +150,41 @@ def make_eigh_handler(eigen_equation=True, ascending=True, block=None, tag="S", 
                 ENGINE.assume(core.z(a.re) == core.z(b.re), "eigh stub: A S = S diag(w)")
                 if not (core.isconc(a.im) and core.isconc(b.im) and a.im == b.im):
                     ENGINE.assume(core.z(a.im) == core.z(b.im))
-        npatch.tag_inverse(S, S1)
-        return w, S
+        B = numpy.dot(S1, numpy.dot(A, S))
+        registry.append((A.copy(), w, S, S1, B))
+        return w.copy(), S
+    handler.register = register
+    handler.fresh_S = fresh_S
+    handler.registry = registry
+    handler.diag_of = {}
     return handler
 
 
 def use_eigh(**kw):
     npatch.EIGH_HANDLER[0] = make_eigh_handler(**kw)
+    return npatch.EIGH_HANDLER[0]
+
+
+def spectral_symmetric(handler, n, block=None, tag="H", ascending=True):
+    """a real symmetric matrix GIVEN BY its eigen-decomposition: H = S diag(w) S^T with S
+    any orthogonal matrix of the handler's family and w ascending.  By the spectral
+    theorem every real symmetric matrix (with that block structure) is of this form, so
+    quantifying over (S, w) quantifies over all H; the decomposition is registered with
+    the eigh stub, which returns exactly (w, S) for H (no eigen-equation assumption needed)."""
+    S, S1 = handler.fresh_S(n, tag + ".S")
+    w = numpy.empty(n, dtype=object)
+    for i in range(n):
+        w[i] = core.real("%s.w%d" % (tag, i))
+    blocks = block if block is not None else [list(range(n))]
+    if ascending:
+        order = [i for blk in blocks for i in blk]
+        for a, b in zip(order[:-1], order[1:]):
+            ENGINE.assume(w[a].re <= w[b].re, "spectral parametrisation: eigenvalues ascending")
+    H = numpy.dot(S * w[None, :], S1)
+    # make H exactly symmetric term-wise (it is, mathematically: S diag(w) S^T)
+    for i in range(n):
+        for j in range(i + 1, n):
+            H[j, i] = H[i, j]
+    handler.register(H, w, S, S1)
+    return H, w, S
+
